@@ -183,21 +183,25 @@ Lemma workload_crash : forall ops s k,
     (j <= count_acks (crash_at k (workload_trace ops s)) + 1)%nat.
 Proof.
   induction ops as [|o tl IH]; intros s k.
-  - exists 0%nat. unfold crash_at. simpl. rewrite firstn_nil. repeat split; simpl; lia.
+  - exists 0%nat. unfold crash_at. simpl. rewrite firstn_nil.
+    split; [simpl; lia|]. split; [reflexivity|]. unfold count_acks. split; simpl; lia.
   - simpl workload_trace. unfold crash_at. rewrite firstn_app.
     destruct (Nat.leb k (length (trace_of o s))) eqn:E.
     + apply Nat.leb_le in E.
-      replace (k - length (trace_of o s))%nat with 0%nat by lia. simpl firstn at 2. rewrite app_nil_r.
+      replace (k - length (trace_of o s))%nat with 0%nat by lia.
+      change (firstn 0 (workload_trace tl (post o s))) with (@nil event). rewrite app_nil_r.
       destruct (op_crash o s k) as [[R A]|[R A]]; unfold crash_at in R, A.
-      * exists 0%nat. rewrite R, A. simpl. repeat split; lia.
-      * exists 1%nat. rewrite R. simpl. repeat split; try lia. unfold posts. simpl. reflexivity.
+      * exists 0%nat. rewrite R, A. simpl.
+        split; [lia|]. split; [reflexivity|]. split; lia.
+      * exists 1%nat. rewrite R. simpl.
+        split; [lia|]. split; [reflexivity|]. split; lia.
     + apply Nat.leb_gt in E.
       rewrite firstn_all2 by lia.
       destruct (IH (post o s) (k - length (trace_of o s))%nat) as [j [Hj [R [A1 A2]]]].
       unfold crash_at in R, A1, A2.
       exists (S j). rewrite recover_app_complete, R, count_acks_app.
       destruct (one_commit o s) as [_ [_ [_ C]]]. rewrite C.
-      simpl. repeat split; try lia. 
+      split; [simpl; lia|]. split; [reflexivity|]. split; lia.
 Qed.
 
 (* ---------------------------------------------------------------- key pairs *)
@@ -232,9 +236,9 @@ Proof.
   intros valid a b s k F r. subst r.
   destruct (atomic (OCreateKeyPair valid a b) s k) as [R|R]; rewrite R.
   - unfold has_object. rewrite !fresh_not_has; auto; unfold T_managed, T_opaque; lia.
-  - unfold post, writes_of. destruct valid; simpl.
+  - unfold post, writes_of. destruct valid; cbv beta iota zeta.
     + unfold has_object. rewrite rows_apply_ins. rewrite !has_app.
       rewrite has_base_rows. rewrite (has_base_rows (next_uid s + 1) OT_private).
-      rewrite !orb_true_r. simpl. rewrite !orb_true_r. reflexivity.
+      rewrite !orb_true_l, !orb_true_r. reflexivity.
     + unfold has_object. rewrite !fresh_not_has; auto; unfold T_managed, T_opaque; lia.
 Qed.
